@@ -1,8 +1,7 @@
 import Driver.Util
 import ReplicatModel.Layout
 open Lean Replicat
-namespace Driver
-
+namespace Driver.HLayout
 def lexLE : List Nat → List Nat → Bool
   | [], _ => true
   | _ :: _, [] => false
@@ -70,4 +69,6 @@ def handleLayout (op : String) (j : Json) : Except String Json := do
     pure (Json.mkObj [("files", natArr (flattenArgs ex))])
   | _ => throw s!"unknown op {op}"
 
-end Driver
+end Driver.HLayout
+
+def Driver.handleLayout := Driver.HLayout.handleLayout
